@@ -195,6 +195,10 @@ def _gen_parse(rng, cfg):
     if rng.random() < 0.04:
         d, s = STRUCT_QUERIES[rng.randrange(len(STRUCT_QUERIES))]
         return {"k": "parse", "sql": s, "dialect": d}
+    if rng.random() < 0.03:
+        # a function-zoo statement: two dozen Func classes at once, most of them rare in the test corpus, for the generators to print
+        zoo = corpus.zoo_statements(0)
+        return {"k": "parse", "sql": zoo[rng.randrange(len(zoo))], "dialect": None}
     if rng.random() < cfg.get("p_grammar", 0.0):
         # seeded query grammar over the harness schema: joins of every kind, derived tables/CTEs that join, correlated subqueries, DNF filters
         # the grammar only uses portable SQL: sometimes the query is read (and later qualified / optimized) in a dialect with
